@@ -21,7 +21,7 @@ func init() {
 		Technique: "abstract interpretation of every Update and of every _deploy with isUpdate fixed to true: gate entailment, version-bound facts at every effect and exit, write-set inclusion in the migration table with per-entry version guards, move/re-visit rules over the key schemas of the migration loops",
 		Explanation: "D1 all 11 Update methods call management.update only under the documented majority (committee, resp. the NeoFS Alphabet designated for the next block for neofs/processing) and pass AppendVersion(data), i.e. the running Version constant appended. " +
 			"D2 every _deploy(isUpdate = true) establishes PrevVersion ≤ v < Version for v = the last element of data at every effect and at every normal exit; PrevVersion < Version. D3 the update side never reaches the fresh-deploy initialisation and its write set is contained in the migration table (DESIGN App. C), each entry under its version guard. " +
-			"D4 migrations are moves — Put(prefix‖key, value) and Delete(key) of the same scanned item — selected by key length, and re-visit safe (the inserted keys have a length that is not selected); the in-place rewrites (netmap, nns) store values derived from the scanned value under the scanned key. D5 a migration step is gone round only with version ≥ its recorded layout-change version (skip-edge rule). D6 index-keyed in-place rewrites run over the stored count. M: every documented migration step whose layout-change version lies above PrevVersion is reachable; migration loops end only on exhaustion. R6: Version and PrevVersion are linear forms with equal weights over disjoint declared components, every declared component enters one of them. R7: the window agreement between Vote and TryPurgeVotes (C17) is decided here as well: the legacy migrations rely on TryPurgeVotes to detect a pending vote. R10: every scanned item of the selected key length is moved by a migration loop; the declared field order and types of every struct type of the contracts and of common equal the recorded layout of the data in storage (renames in place and appended fields accepted).",
+			"D4 migrations are moves — Put(prefix‖key, value) and Delete(key) of the same scanned item — selected by key length, and re-visit safe (the inserted keys have a length that is not selected); the in-place rewrites (netmap, nns) store values derived from the scanned value under the scanned key. D5 a migration step is gone round only with version ≥ its recorded layout-change version (skip-edge rule). D6 index-keyed in-place rewrites run over the stored count. M: every documented migration step whose layout-change version lies above PrevVersion is reachable; migration loops end only on exhaustion. R6: Version and PrevVersion are linear forms with equal weights over disjoint declared components, every declared component enters one of them. R7: the window agreement between Vote and TryPurgeVotes (C17) is decided here as well: the legacy migrations rely on TryPurgeVotes to detect a pending vote. R10: every scanned item of the selected key length is moved by a migration loop; the declared field order and types of every struct type of the contracts and of common equal the recorded layout of the data in storage (renames in place and appended fields accepted). R13 catching-frame: no function with a deferred recover that a method of the property's contracts can reach lies outside the who-may-catch table (container.deleteNNSRecords).",
 		NotCovered: "preservation of the read API for arbitrary prior storages (value level); behaviour of the native management contract.",
 		Run:        runC16,
 	})
